@@ -1,0 +1,12 @@
+//go:build verif
+
+package c19
+
+import (
+	"github.com/lni/dragonboat/v4/internal/raft"
+)
+
+var (
+	NewLogRL      = raft.VerifC19NewRL
+	SetSliceSizes = raft.VerifC19SetSliceSizes
+)
